@@ -991,7 +991,7 @@ ANCHORS = [("typhon/files/fileset.py", "FileSet." + n) for n in
 
 def new_check():
     ck = vlib.Check(PROP, pkg="fileset", props="Proofs.Props.C02", driver="drv_c02",
-                    lemma_files=["Proofs/Lemmas/Digits.lean", "Proofs/Lemmas/Time.lean", "Proofs/Lemmas/Template.lean", "Proofs/Lemmas/TemplateEnd.lean"],
+                    lemma_files=["Proofs/Lemmas/Digits.lean", "Proofs/Lemmas/Time.lean", "Proofs/Lemmas/Template.lean", "Proofs/Lemmas/TemplateEnd.lean", "Proofs/Lemmas/TemplateVar.lean"],
                     model_files=["Model/Digits.lean", "Model/Time.lean", "Model/Template.lean"],
                     trusted=TRUSTED, assumptions=ASSUMPTIONS)
     ck.rule = ("templates from a token grammar (directory+file part, year|year2, month+day|doy, hour..millisecond, end_ fields "
